@@ -1,22 +1,57 @@
 package main
 
-// Houdini-style inference of simple inductive invariants for loops without
-// annotation (used for zero-annotation safety of generated code).
-// Implemented in a later step; currently no invariants are inferred.
+// Automatic invariants for loops.
+//  - range loops over slices/arrays: the hidden index satisfies -1 <= idx
+//    (assumed at the header, checked on entry and on every back edge).
+// A Houdini-style inference for the generated decoders is layered on top of
+// this in inferAndTranslate.
 
 import (
+	"fmt"
+	"go/token"
+	"go/types"
+
 	"golang.org/x/tools/go/ssa"
 )
 
 type houdiniState struct {
-	cands map[int][]string // per loop ordinal: surviving candidate source texts
+	cands map[int][]string
+}
+
+func (eng *Engine) autoInvs(fr *Frame, li *loopInfo, phiEnv map[*ssa.Phi]string) []string {
+	var out []string
+	vc := fr.vc
+	for _, in := range li.header.Instrs {
+		phi, ok := in.(*ssa.Phi)
+		if !ok {
+			break
+		}
+		if phi.Comment == "rangeindex" {
+			var t string
+			if v, ok := phiEnv[phi]; ok {
+				t = v
+			} else {
+				t = fr.val(phi)
+			}
+			out = append(out, vc.leInt(vc.intLitN(-1, types.Typ[types.Int]), t))
+		}
+	}
+	return out
 }
 
 func (eng *Engine) inferredInv(fr *Frame, li *loopInfo, st *State, phiEnv map[*ssa.Phi]string) []string {
-	return nil
+	return eng.autoInvs(fr, li, phiEnv)
 }
 
 func (eng *Engine) inferredCheck(fr *Frame, li *loopInfo, st *State, g string, env map[*ssa.Phi]string, phase string) {
+	for k, t := range eng.autoInvs(fr, li, env) {
+		suffix := ""
+		if phase == "keep" {
+			suffix = fmt.Sprintf(".b%d", fr.top().curBlk)
+		}
+		fr.vc.addObl(&Obligation{Name: fmt.Sprintf("%s#loop%d.autoinv.%d.%s%s", fr.vc.unit, li.ordinal, k, phase, suffix), Kind: "inv." + phase,
+			Props: fr.props(), Guard: g, Goal: t, Src: "range index >= -1 (automatic)", Pos: fr.vc.eng.pos(token.NoPos)})
+	}
 }
 
 func (eng *Engine) inferAndTranslate(unit, mode string, fn *ssa.Function, fc *FuncContract) (*VC, *Frame) {
